@@ -573,6 +573,21 @@ theorem appKeep_deallocApp (key other : String) (r : CItem) (a : CApp) : AppKeep
   rw [deallocApp_items]
   exact keep_deallocItems hj ho
 
+/-- the Completing application runs again: from a state without reservations to Running, nothing else changes -/
+theorem appKeep_deallocAppRun (key other : String) (r : CItem) (a : CApp) : AppKeep a (deallocAppRun key other r a) := by
+  have hk := appKeep_deallocApp key other r a
+  refine ⟨(runAgain_id _).trans hk.id, (runAgain_queue _).trans hk.queue, (runAgain_reservations _).trans hk.resv,
+    fun h => hk.live ((runAgain_live _).symm.trans h), fun h => (hk.stays h).imp (fun h' => (runAgain_live _).trans h') id, ?_, ?_⟩
+  · intro hl j hj ho
+    have := hk.items ((runAgain_live _).symm.trans hl) j hj ho
+    unfold deallocAppRun; rw [runAgain_items]; exact this
+  · intro hl hbad
+    by_cases hs : (deallocApp key other r a).state = "Completing"
+    · exact Or.inl (Or.inr (Or.inl hs))
+    · unfold deallocAppRun at hbad
+      rw [runAgain_of_ne _ hs] at hbad
+      exact Or.inl hbad
+
 theorem appKeep_unlinkApp (k1 k2 : String) (a : CApp) : AppKeep a (unlinkApp k1 k2 a) := by
   refine ⟨rfl, rfl, rfl, fun h => h, fun h => Or.inl h, ?_, fun _ h => Or.inl h⟩
   intro _ j hj ho
@@ -622,9 +637,9 @@ theorem resMid_unlink {id : String} {l : List String} (c : Core) (app k1 k2 : St
 
 theorem resMid_dealloc {id : String} {l : List String} (c : Core) (app key other : String) (r : CItem) (chain : List String)
     (hw : CoreWF c) (hr : ResMid id l c) :
-    ResMid id l (updQueues (updApp c app (deallocApp key other r)) chain (qIncPend r.res)) :=
-  resMid_updApp hw app (deallocApp key other r) _ rfl rfl rfl (Nat.le_refl _)
-    (appKeep_deallocApp key other r) (upd_hg chain _ (fun _ => ⟨rfl, rfl⟩)) hr
+    ResMid id l (updQueues (updApp c app (deallocAppRun key other r)) chain (qIncPend r.res)) :=
+  resMid_updApp hw app (deallocAppRun key other r) _ rfl rfl rfl (Nat.le_refl _)
+    (appKeep_deallocAppRun key other r) (upd_hg chain _ (fun _ => ⟨rfl, rfl⟩)) hr
 
 theorem resMid_confirm {id : String} {l : List String} (c : Core) (app : String) (a : CApp) (i r : CItem) (chain : List String)
     (d : Res) (hw : CoreWF c) (hfind : c.findApp app = some a) (hr : ResMid id l c) :
